@@ -90,7 +90,32 @@ def run(facts, cg):
                 finding('R-WHO(verified-ctor)', fn, 'weak-comparison', 'ArchiveChunk::verify truncates the computed hash to something other than the expected hash length')
             if not ok:
                 finding('R-WHO(verified-ctor)', fn, 'not-on-equal-side', 'ArchiveChunk::verify builds a VerifiedChunk on a path that is not the equal side of the hash comparison')
-    instances.append({'rule': 'R-WHO(verified-ctor)', 'sites': [{'in': fn_name(facts, b), 'at': st['loc']} for b, bi, st in ctors]})
+    # data that came out of the archive becomes a VerifiedChunk only through the comparing constructor: no method of the archive
+    # chunk types (nothing that has such a chunk as `self`) reaches the hashing-only constructors VerifiedChunk::new / Chunk::verify
+    n_arch_methods = 0
+    for b in facts.bodies.values():
+        if b.generated or not b.id.startswith('bitar::chunk::') or b.arg_count < 1:
+            continue
+        sty = b.lty(1)
+        while sty.get('k') in ('ref', 'rawptr') and sty.get('args'):
+            sty = b.ty(sty['args'][0])
+        if sty.get('adt') not in ('bitar::chunk::CompressedArchiveChunk', 'bitar::chunk::ArchiveChunk'):
+            continue
+        n_arch_methods += 1
+        for bi, t in b.calls():
+            if 'q' in t['callee'] and callee_q(t) in ('bitar::chunk::VerifiedChunk::new', 'bitar::chunk::Chunk::verify'):
+                finding('R-WHO(verified-ctor)', b.q, 'archive-data-not-compared', '%s turns archive data into a VerifiedChunk with %s at %s, which hashes but compares with '
+                        'nothing: a corrupted payload carries its own hash, is not found in the clone index and is silently skipped' % (b.q, callee_q(t), t['loc']))
+    # ... and the clone command takes archive chunks to the output through ArchiveChunk::verify
+    for b in facts.bodies.values():
+        if b.crate != 'bita' or b.generated or '::clone_cmd::' not in b.id:
+            continue
+        calls = [callee_q(t) for _, t in b.calls() if 'q' in t['callee']]
+        if any(q.endswith('CompressedArchiveChunk::decompress') or (q.startswith('bitar::chunk::CompressedArchiveChunk::') and q.split('::')[-1] not in ('len', 'is_empty')) for q in calls):
+            if not any(q == 'bitar::chunk::ArchiveChunk::verify' for q in calls):
+                finding('R-WHO(verified-ctor)', fn_name(facts, b), 'fetch-not-through-verify', 'the clone command unpacks archive chunks in %s without calling ArchiveChunk::verify '
+                        'itself: whether they are compared with the hash the dictionary records is up to something else' % b.q)
+    instances.append({'rule': 'R-WHO(verified-ctor)', 'sites': [{'in': fn_name(facts, b), 'at': st['loc']} for b, bi, st in ctors], 'archive_chunk_methods': n_arch_methods})
     if len(ctors) < 3:
         finding('R-WHO(verified-ctor)', '-', 'floor', 'fewer than 3 VerifiedChunk construction sites found (cannot decide)')
 
